@@ -213,7 +213,9 @@ def perform(m, defn, theta, x0, plan, rng, seed, max_steps=250):
         with instrument.recording() as rec:
             np.random.seed(s)
             signal.signal(signal.SIGALRM, _alarm)
-            signal.alarm(20)
+            # repeating: should the first Timeout be swallowed (raised inside a finalizer or a __del__), the next one
+            # comes two seconds later
+            signal.setitimer(signal.ITIMER_REAL, 20, 2)
             try:
                 if p.get("parallel"):
                     import dask
@@ -223,9 +225,11 @@ def perform(m, defn, theta, x0, plan, rng, seed, max_steps=250):
                     out = m.solve_stochast(tin, 1, exact=p["exact"], full_output=True)
                 rec_run["out"] = out
                 rec_run["raised"] = None
-            except Timeout:
-                # slow is not wrong: only a loop that no longer advances time is a violation
-                att = rec.cur["attempts"] if rec.cur is not None else []
+            except (Timeout, instrument.TooLong, instrument.Exploded):
+                signal.setitimer(signal.ITIMER_REAL, 0)
+                # slow (or stopped by the recorder: absurd length, population beyond every bound) is not wrong: the run is
+                # judged on a prefix of its attempts; only a loop that no longer advances time is a violation
+                att = rec.runs[-1]["attempts"] if rec.runs else []      # (rec.cur is cleared when the exception passes _jump)
                 stuck = len(att) > 2000 and len(set(a["tb"] for a in att[-2000:])) == 1
                 rec_run["raised"] = ("STUCK: the simulation loop made 2000 attempts without advancing time"
                                      if stuck else None)
@@ -235,7 +239,7 @@ def perform(m, defn, theta, x0, plan, rng, seed, max_steps=250):
                 rec_run["raised"] = repr(ex)[:300]
                 rec_run["out"] = None
             finally:
-                signal.alarm(0)
+                signal.setitimer(signal.ITIMER_REAL, 0)
         rec_run["rec"] = rec.runs[0] if rec.runs else None
         rec_run["nruns"] = len(rec.runs)
         rec_run["foreign_rng"] = rec.foreign_rng
